@@ -1,5 +1,6 @@
 import WS.Lemmas.SrcLaw
 import WS.Lemmas.Mask
+import WS.Lemmas.ReaderDecodes
 /-
   C03 — The reader decodes any conformant peer stream, however fragmented or read.
   This file: independence from transport chunking, buffer size and read sizes (the byte source is a
@@ -38,6 +39,41 @@ theorem unmask_across_reads (k : Key) (p : Nat) (xs ys : Bytes) :
   rw [maskFrom_append]
   congr 1
   exact maskFrom_congr k (by omega) ys
+
+open WS.ReaderDecodes in
+/-- C03 (one message): from an idle reader whose pending bytes start with a conformant message —
+    any fragmentation incl. empty frames, any masking keys, pings/pongs between fragments, either
+    role, any bufio size ≥ 125, any transport chunking — NextReader returns its type and reading to
+    the end with reads of ANY size k yields exactly its payload and then end-of-message; the reader
+    is idle again right after the message and the handlers saw exactly the interleaved control
+    frames, in wire order (C08: exactly once). -/
+theorem read_message (c : Conn) (hc : ReaderIdle c) (t : Nat) (ht : t = 1 ∨ t = 2) (fs : List PFrame)
+    (hs : MsgShape t fs) (rest : Bytes)
+    (hp : c.r.buf.pending = encAll c.r.isServer fs ++ rest)
+    (hend : c.r.buf.t.together = false ∨ rest ≠ [])
+    (hsz : (dataPayload fs).length < 2 ^ 62)
+    (hlim : c.r.limit ≤ 0 ∨ ((dataPayload fs).length : Int) ≤ c.r.limit)
+    (k : Nat) (hk : 0 < k) :
+    ∃ c1 rid, nextReader c = (.msg t rid false, c1) ∧
+      ∃ c2, readAll c1 rid k = ((dataPayload fs, none), c2) ∧ ReaderIdle c2 ∧ c2.r.buf.pending = rest ∧
+        c2.r.hlog = c.r.hlog ++ ctlEvents fs :=
+  ReaderDecodes.read_message c hc t ht fs hs rest hp hend hsz hlim k hk
+
+open WS.ReaderDecodes in
+/-- C03 (abandonment): after opening a message and reading any part of it (nothing, some, or all),
+    the next NextReader returns the following message, complete and unmixed -/
+theorem abandon_then_next (c : Conn) (hc : ReaderIdle c) (t1 t2 : Nat) (ht1 : t1 = 1 ∨ t1 = 2) (ht2 : t2 = 1 ∨ t2 = 2)
+    (fs1 fs2 : List PFrame) (hs1 : MsgShape t1 fs1) (hs2 : MsgShape t2 fs2) (rest : Bytes)
+    (hp : c.r.buf.pending = encAll c.r.isServer fs1 ++ encAll c.r.isServer fs2 ++ rest)
+    (hend : c.r.buf.t.together = false ∨ rest ≠ [])
+    (hsz : (dataPayload fs1).length < 2 ^ 62 ∧ (dataPayload fs2).length < 2 ^ 62)
+    (hlim : c.r.limit ≤ 0)
+    (reads : List Nat) (k : Nat) (hk : 0 < k) :
+    ∃ c1 rid1, nextReader c = (.msg t1 rid1 false, c1) ∧
+      ∃ c3 rid2, nextReader (partialReads c1 rid1 reads) = (.msg t2 rid2 false, c3) ∧
+        ∃ c4, readAll c3 rid2 k = ((dataPayload fs2, none), c4) ∧ ReaderIdle c4 ∧ c4.r.buf.pending = rest ∧
+          c4.r.hlog = c.r.hlog ++ ctlEvents fs1 ++ ctlEvents fs2 :=
+  ReaderDecodes.abandon_then_next c hc t1 t2 ht1 ht2 fs1 fs2 hs1 hs2 rest hp hend hsz hlim reads k hk
 
 /-- non-vacuity: a 3-byte buffer over a transport that hands out [1,2],[3,4,5]: take 2 then read 9 -/
 example :
